@@ -542,6 +542,24 @@ func (w *world) build(withMutation bool) (*graphql.Schema, error) {
 		}
 		return w.b(w.aB[a.ID-100]), nil
 	})
+	w.register(oa, "grid", func(ctx context.Context, a *A) ([][]*B, error) {
+		if err := w.point(ctx, "A.grid", a.ID); err != nil {
+			return nil, err
+		}
+		l := w.aBs[a.ID-100]
+		row := func(idx []int) []*B {
+			out := []*B{}
+			for _, i := range idx {
+				out = append(out, w.b(i))
+			}
+			return out
+		}
+		rev := make([]int, len(l))
+		for i, x := range l {
+			rev[len(l)-1-i] = x
+		}
+		return [][]*B{row(l), nil, row(rev), {}}, nil
+	})
 	w.register(oa, "bs", func(ctx context.Context, a *A) ([]*B, error) {
 		if err := w.point(ctx, "A.bs", a.ID); err != nil {
 			return nil, err
@@ -609,4 +627,4 @@ func (w *world) build(withMutation bool) (*graphql.Schema, error) {
 	return s.Build()
 }
 
-var computedFields = []string{"A.tag", "A.score", "A.b", "A.bs", "A.u", "B.a", "B.cs", "B.label", "C.w", "D.v", "A.nb"}
+var computedFields = []string{"A.tag", "A.score", "A.b", "A.bs", "A.u", "B.a", "B.cs", "B.label", "C.w", "D.v", "A.nb", "A.grid"}
